@@ -226,9 +226,9 @@ impl Construct {
 
 pub fn construct_strategy() -> impl Strategy<Value = Construct> {
     let men = prop_oneof![
-        3 => vec((any::<u8>(), 0u8..64), 0..4),
+        2 => vec((any::<u8>(), 0u8..64), 0..4),
         3 => vec((any::<u8>(), 0u8..64), 0..12),
-        2 => vec((any::<u8>(), 0u8..64), 8..34),
+        4 => vec((any::<u8>(), 0u8..64), 8..40),
     ];
     (0u8..64, 0u8..64, 0u8..64, men, any::<bool>(), 0u8..32, prop_oneof![3 => 0u8..8, 1 => 8u8..16, 2 => 16u8..24]).prop_map(
         |(home, wk, bk, men, white, cr, ep)| Construct { home, wk, bk, men, white, cr, ep },
@@ -255,10 +255,14 @@ impl Start {
     }
 }
 
+/// curated roots with (nearly) full material: the start, the CPW middlegames, castling and capture-rich positions
+pub const MIDDLEGAMES: &[u16] = &[0, 0, 1, 3, 4, 5, 22, 32, 33, 40, 41, 42, 43];
+
 pub fn start_strategy() -> BoxedStrategy<Start> {
     prop_oneof![
-        5 => (0u16..CURATED.len() as u16).prop_map(Start::Curated),
-        3 => construct_strategy().prop_map(Start::Built),
+        4 => (0u16..CURATED.len() as u16).prop_map(Start::Curated),
+        4 => proptest::sample::select(MIDDLEGAMES).prop_map(Start::Curated),
+        4 => construct_strategy().prop_map(Start::Built),
     ]
     .boxed()
 }
